@@ -2,7 +2,7 @@
    independent reading of an element in Spec/Site.v (C01, C03, C04, C05, C11). *)
 From Coq Require Import Lia.
 From VJ Require Import Model.Str Model.Json Model.Ast Model.State Model.Util Model.Text
-  Model.Directive Model.Lower Spec.JsxText Spec.OutViews Spec.Site Lemmas.StrLemmas
+  Model.Directive Model.Lower Model.Visitor Spec.JsxText Spec.OutViews Spec.Site Spec.SiteCheck Lemmas.StrLemmas
   Lemmas.TextProofs.
 
 (* ---- strings ------------------------------------------------------------------------------ *)
@@ -83,6 +83,716 @@ Proof.
     repeat match goal with
            | |- context [match ?x with _ => _ end] => is_var x; destruct x; try reflexivity
            end.
+Qed.
+
+(* ---- C04 / C05: directive names ----------------------------------------------------------- *)
+Definition model_name_parts (name : node) : str * option str * list str :=
+  match name with
+  | JNs (IdName ns) (IdName nm) =>
+      let parts := split_on 95 nm in
+      (lowercase_first (trim_start_c 45 (trim_start_c 118 ns)),
+       Some (match parts with p :: _ => p | [] => nm end),
+       match parts with _ :: r => r | [] => [] end)
+  | IdName sym =>
+      let parts := split_on 95 (trim_start_c 45 (trim_start_c 118 sym)) in
+      (lowercase_first (match parts with p :: _ => p | [] => sym end),
+       None,
+       match parts with _ :: r => r | [] => [] end)
+  | _ => ([], None, [])
+  end.
+
+Lemma parse_directive_unfold name value ic s :
+  parse_directive name value ic s =
+  let '(dname, argument, splitted) := model_name_parts name in
+  let argument := match argument with Some a => Some (mk_str a) | None => None end in
+  if sq "html" dname then let '(e, s) := parse_html_text "v-html" value s in (DHtml e, s)
+  else if sq "text" dname then let '(e, s) := parse_html_text "v-text" value s in (DText e, s)
+  else if sq "model" dname then parse_v_model value ic argument splitted s
+  else if sq "slots" dname then (parse_v_slots value, s)
+  else
+    let '(value', argument, modifiers) := normal_parts value argument splitted in
+    (DNormal dname
+             (if nonempty_mods modifiers then or_void0 argument else argument)
+             (match modifiers with Some m => transform_modifiers m false | None => None end)
+             value', s).
+Proof. reflexivity. Qed.
+
+(* the written name of a directive is read the same way by the transform and by the property *)
+Lemma name_parts_spec name d :
+  spec_directive_name name = Some d -> model_name_parts name = (dn_name d, dn_arg d, dn_mods d).
+Proof.
+  unfold spec_directive_name, model_name_parts. intros H.
+  repeat match type of H with
+         | context [match ?x with _ => _ end] => is_var x; destruct x; try discriminate H
+         end.
+  - (* IdName *)
+    match type of H with (if ?c then _ else _) = _ => destruct c; [|discriminate H] end.
+    rewrite strip_v_trim in H.
+    destruct (split_on 95 _) as [|nm0 mods0] eqn:ES; [discriminate H|].
+    injection H as <-. reflexivity.
+  - (* JNs *)
+    match type of H with (if ?c then _ else _) = _ => destruct c; [|discriminate H] end.
+    destruct (split_on 95 _) as [|nm0 mods0] eqn:ES; [discriminate H|].
+    injection H as <-. cbn [dn_name dn_arg dn_mods]. rewrite strip_v_trim. reflexivity.
+Qed.
+
+(* a name the property reads as a directive is one for the transform, and conversely *)
+Lemma directive_iff name value :
+  match name with IdName _ | JNs (IdName _) (IdName _) => True | _ => False end ->
+  is_directive (JAttr name value) = match spec_directive_name name with Some _ => true | None => false end.
+Proof.
+  intros W. unfold is_directive, spec_directive_name, attr_base_name, is_directive_name.
+  repeat match goal with
+         | |- context [match ?x with _ => _ end] => is_var x; destruct x; try contradiction
+         end; try reflexivity.
+  all: repeat match goal with
+              | |- context [split_on ?c ?t] =>
+                  let ES := fresh "ES" in
+                  destruct (split_on c t) eqn:ES; [exfalso; exact (split_on_nonempty _ _ ES)|]
+              end.
+  all: cbv beta zeta iota.
+  all: match goal with |- ?c = _ => destruct c end; reflexivity.
+Qed.
+
+(* ---- modifiers ---------------------------------------------------------------------------- *)
+Lemma parse_modifiers_spec es : parse_modifiers es = sort_dedup (str_lits es).
+Proof.
+  induction es as [|e r IH]; [reflexivity|].
+  cbn [parse_modifiers str_lits].
+  destruct e; try exact IH.
+  match goal with |- context [match ?b with true => _ | false => _ end] => destruct b end; try exact IH.
+  match goal with |- context [match ?n with Str _ _ => _ | _ => _ end] => destruct n end; try exact IH.
+  unfold sort_dedup in *. cbn [fold_right]. rewrite IH. reflexivity.
+Qed.
+
+Lemma view_mods_transform ms q :
+  view_mods (match transform_modifiers ms q with Some m => m | None => Null end) = ms.
+Proof.
+  unfold transform_modifiers. destruct ms as [|m0 r0]; [reflexivity|].
+  unfold view_mods. generalize (m0 :: r0). intros l.
+  induction l as [|m r IH]; [reflexivity|].
+  cbn [map fold_right]. rewrite IH.
+  destruct (q || negb (is_simple_ident m)); reflexivity.
+Qed.
+
+(* ---- value / argument / modifiers of a directive ---------------------------------------- *)
+Definition dflt_value (o : option node) : node := match o with Some v => v | None => empty_ident end.
+Definition mods_list (o : option (list str)) : list str := match o with Some m => m | None => [] end.
+Definition name_arg (na : option str) : option node :=
+  match na with Some a => Some (mk_str a) | None => None end.
+
+Lemma elem_at_nth_plain es i : elem_at es i = nth_plain es i.
+Proof. reflexivity. Qed.
+
+(* the array form `[value, arg?, [modifiers]?]`; [dflt]: a component's v-model gets `null` *)
+Lemma array_form_spec dflt nm na splitted es :
+  let parts := spec_directive_parts {| dn_name := nm; dn_arg := na; dn_mods := splitted |} (JExprC (Arr es)) in
+  exists mo,
+    array_form dflt (name_arg na) splitted es
+    = (dflt_value (dp_value parts),
+       (if dflt then match dp_arg parts with None => Some Null | x => x end else dp_arg parts), mo)
+    /\ mods_list mo = sort_dedup (dp_mods parts).
+Proof.
+  cbv zeta. unfold array_form, spec_directive_parts. cbn [dn_arg dn_mods dn_name].
+  change elem_at with nth_plain. change plain_elems with as_array.
+  assert (V : match es with Elem false e :: _ => e | _ => empty_ident end = dflt_value (nth_plain es 0)).
+  { unfold nth_plain. destruct es as [|e0 r]; [reflexivity|]. cbn [nth_error].
+    destruct e0; try reflexivity.
+    match goal with |- context [match ?b with true => _ | false => _ end] => destruct b end; reflexivity. }
+  rewrite V. clear V.
+  destruct (nth_plain es 1) as [a|].
+  - destruct (as_array a) as [ms|].
+    + eexists. split; [cbn [dp_value dp_arg dp_mods]; destruct na; destruct dflt; reflexivity|].
+      cbn [dp_mods mods_list]. apply parse_modifiers_spec.
+    + destruct (nth_plain es 2) as [x|]; [destruct (as_array x) as [ms|]|];
+        eexists; (split; [cbn [dp_value dp_arg dp_mods]; destruct na; destruct dflt; reflexivity|]);
+        cbn [dp_mods mods_list]; try apply parse_modifiers_spec; reflexivity.
+  - eexists. split; [cbn [dp_value dp_arg dp_mods]; destruct na; destruct dflt; reflexivity|].
+    reflexivity.
+Qed.
+
+Lemma normal_parts_spec nm na splitted value :
+  let parts := spec_directive_parts {| dn_name := nm; dn_arg := na; dn_mods := splitted |} value in
+  exists mo,
+    normal_parts value (name_arg na) splitted = (dflt_value (dp_value parts), dp_arg parts, mo)
+    /\ mods_list mo = sort_dedup (dp_mods parts).
+Proof.
+  cbv zeta. unfold normal_parts.
+  destruct value; try (eexists; split; [destruct na; reflexivity|reflexivity]).
+  (* an expression container *)
+  match goal with |- context [JExprC ?e] => destruct e end;
+    try (eexists; split; [destruct na; reflexivity|reflexivity]).
+  (* the array form *)
+  match goal with |- context [Arr ?es] =>
+    destruct (array_form_spec false nm na splitted es) as [mo [H1 H2]] end.
+  exists mo. split; [exact H1|exact H2].
+Qed.
+
+(* ---- the binding built for a directive, read back ---------------------------------------- *)
+Definition norm_def (def : node) : node :=
+  match def with
+  | Ident s _ _ => mk_ident s 0
+  | Call true _ (Ident s _ _) args _ =>
+      mk_call (mk_ident s 0)
+              (fold_right (fun a acc => match a with Elem false x => x :: acc | _ => acc end) [] args)
+  | _ => def
+  end.
+
+Definition arg_not_void (arg : option node) : Prop :=
+  match arg with Some a => is_void0 a = false | None => True end.
+
+Lemma view_dir_built def value arg mo :
+  arg_not_void arg ->
+  view_dir (Elem false (Arr (map (Elem false)
+             ([def; value] ++ opt_list (if nonempty_mods mo then or_void0 arg else arg)
+              ++ opt_list (match mo with Some m => transform_modifiers m false | None => None end)))))
+  = Some (ADir (norm_def def) value arg (mods_list mo)).
+Proof.
+  intros NV. unfold view_dir. cbn [map app].
+  fold (norm_def def).
+  destruct mo as [[|m r]|].
+  - cbn [nonempty_mods mods_list transform_modifiers opt_list app map].
+    destruct arg as [x|]; cbn [opt_list map app]; [|reflexivity]. cbn in NV. rewrite NV. reflexivity.
+  - pose proof (view_mods_transform (m :: r) false) as VM.
+    unfold transform_modifiers in VM |- *.
+    set (MO := Obj (map _ (m :: r))) in *.
+    cbn [nonempty_mods mods_list opt_list app map].
+    destruct arg as [x|]; cbn [or_void0 opt_list map app].
+    + cbn in NV. rewrite NV. rewrite VM. reflexivity.
+    + rewrite VM. reflexivity.
+  - cbn [nonempty_mods mods_list transform_modifiers opt_list app map].
+    destruct arg as [x|]; cbn [opt_list map app]; [|reflexivity]. cbn in NV. rewrite NV. reflexivity.
+Qed.
+
+Lemma resolve_show tag attrs s :
+  norm_def (fst (resolve_directive (s_ "show") tag attrs s)) = mk_ident (s_ "_vShow") 0.
+Proof. reflexivity. Qed.
+
+Lemma resolve_other dn tag attrs s :
+  sq "show" dn = false -> sq "model" dn = false ->
+  norm_def (fst (resolve_directive dn tag attrs s))
+  = mk_call (mk_ident (s_ "_resolveDirective") 0) [mk_str dn].
+Proof.
+  intros H1 H2. unfold resolve_directive. rewrite H1, H2. reflexivity.
+Qed.
+
+(* C04: an attribute the property reads as a runtime directive yields exactly one binding, equal
+   to the one the property describes, and touches nothing else of the element *)
+Theorem normal_directive_refines ic tag attrs all name value d a :
+  spec_directive_name name = Some d ->
+  sq "html" (dn_name d) = false -> sq "text" (dn_name d) = false ->
+  sq "model" (dn_name d) = false -> sq "slots" (dn_name d) = false ->
+  arg_not_void (dp_arg (spec_directive_parts d value)) ->
+  let a' := step_directive ic a name value in
+  exists dir,
+    a_dirs a' = a_dirs a ++ [dir]
+    /\ a_props a' = a_props a /\ a_margs a' = a_margs a /\ a_dyn a' = a_dyn a
+    /\ a_slots a' = a_slots a /\ a_st a' = a_st a
+    /\ fst (fst (attr_spec E ic tag all (JAttr name value))) = []
+    /\ forall s1, map view_dir (fst (build_directives [dir] tag attrs s1))
+                  = map Some (snd (fst (attr_spec E ic tag all (JAttr name value)))).
+Proof.
+  intros HN Hh Ht Hm Hs NV. cbv zeta.
+  unfold step_directive. rewrite parse_directive_unfold.
+  rewrite (name_parts_spec _ _ HN). rewrite Hh, Ht, Hm, Hs.
+  destruct d as [dn na sp]. cbn [dn_name dn_arg dn_mods] in *.
+  destruct (normal_parts_spec dn na sp value) as [mo [HP HM]].
+  fold (name_arg na). rewrite HP.
+  eexists. repeat split.
+  - cbn [attr_spec]. rewrite HN. cbn [dn_name]. rewrite Hh, Ht, Hs, Hm. reflexivity.
+  - intros s1. cbn [attr_spec]. rewrite HN. cbn [dn_name]. rewrite Hh, Ht, Hs, Hm.
+    cbn [fst snd map build_directives].
+    destruct (resolve_directive dn tag attrs s1) as [def s2] eqn:ER.
+    cbn [fst map]. rewrite (view_dir_built def _ _ mo NV). rewrite HM.
+    assert (HD : norm_def def = if sq "show" dn then mk_ident (s_ "_vShow") 0
+                                else mk_call (mk_ident (s_ "_resolveDirective") 0) [mk_str dn]).
+    { replace def with (fst (resolve_directive dn tag attrs s1)) by (rewrite ER; reflexivity).
+      destruct (sq "show" dn) eqn:ESH.
+      + apply str_eqb_eq in ESH. subst dn. reflexivity.
+      + apply resolve_other; assumption. }
+    rewrite HD. reflexivity.
+Qed.
+
+(* ---- C01 / C04: what one attribute adds to the props ------------------------------------- *)
+(* an expression of the source: not a generated vnode call, not shaped like a generated listener *)
+Definition user_value (e : node) : bool :=
+  negb (is_vnode_call e) && match is_listener e with None => true | Some _ => false end
+  && match e with Call true _ _ _ _ => false | _ => true end.
+
+Lemma view_prop_user k w v : user_value v = true -> view_prop (KV (Str k w) v) = CKV k [v].
+Proof.
+  unfold user_value, view_prop, canon_value. intros H.
+  apply andb_true_iff in H. destruct H as [H _]. apply andb_true_iff in H. destruct H as [H1 H2].
+  destruct (is_vnode_call v); [discriminate H1|].
+  destruct (is_listener v); [discriminate H2|]. reflexivity.
+Qed.
+
+Definition html_text_value (value : node) : node :=
+  match value with
+  | Str _ _ => value
+  | JExprC JEmpty => Bool true
+  | JExprC (Arr (Elem false x :: _)) => x
+  | JExprC e => e
+  | _ => Bool true
+  end.
+
+Lemma parse_html_text_value w value s : fst (parse_html_text w value s) = html_text_value value.
+Proof.
+  unfold parse_html_text, html_text_value.
+  destruct value; try reflexivity.
+  match goal with |- context [match ?e with JEmpty => _ | _ => _ end] => destruct e end; try reflexivity.
+Qed.
+Arguments parse_html_text_value _%string_scope _ _.
+
+(* C04: `v-html` / `v-text` set the innerHTML / textContent prop to the given value and nothing else *)
+Theorem html_text_refines ic tag all name value d a :
+  spec_directive_name name = Some d ->
+  (sq "html" (dn_name d) = true \/ (sq "html" (dn_name d) = false /\ sq "text" (dn_name d) = true)) ->
+  user_value (html_text_value value) = true ->
+  let a' := step_directive ic a name value in
+  exists p,
+    a_props a' = a_props a ++ [p]
+    /\ map view_prop [p] = fst (fst (attr_spec E ic tag all (JAttr name value)))
+    /\ snd (fst (attr_spec E ic tag all (JAttr name value))) = []
+    /\ a_dirs a' = a_dirs a /\ a_margs a' = a_margs a /\ a_slots a' = a_slots a.
+Proof.
+  intros HN HK UV. cbv zeta.
+  unfold step_directive. rewrite parse_directive_unfold. rewrite (name_parts_spec _ _ HN).
+  cbn [attr_spec]. rewrite HN.
+  assert (FV : match (match value with
+                      | Str _ _ => Some value
+                      | JExprC JEmpty => None
+                      | JExprC (Arr (Elem false x :: _)) => Some x
+                      | JExprC e => Some e
+                      | _ => None
+                      end) with Some x => x | None => Bool true end = html_text_value value).
+  { destruct value; try reflexivity. match goal with |- context [match ?e with JEmpty => _ | _ => _ end] => destruct e end; try reflexivity.
+    match goal with |- context [match ?l with [] => _ | _ :: _ => _ end] => destruct l as [|e0 r0]; [reflexivity|] end.
+    destruct e0; try reflexivity.
+    match goal with |- context [match ?b with true => _ | false => _ end] => destruct b end; reflexivity. }
+  destruct HK as [Hh|[Hh Ht]]; rewrite Hh; [|rewrite Ht].
+  - destruct (parse_html_text "v-html" value (a_st a)) as [e s'] eqn:EP.
+    assert (e = html_text_value value) by (rewrite <- (parse_html_text_value "v-html" value (a_st a)), EP; reflexivity).
+    subst e. eexists. split; [reflexivity|]. cbn [fst snd map a_dirs a_margs a_slots].
+    rewrite FV. unfold kv_str, mk_str. rewrite (view_prop_user _ _ _ UV). repeat split.
+  - destruct (parse_html_text "v-text" value (a_st a)) as [e s'] eqn:EP.
+    assert (e = html_text_value value) by (rewrite <- (parse_html_text_value "v-text" value (a_st a)), EP; reflexivity).
+    subst e. eexists. split; [reflexivity|]. cbn [fst snd map a_dirs a_margs a_slots].
+    rewrite FV. unfold kv_str, mk_str. rewrite (view_prop_user _ _ _ UV). repeat split.
+Qed.
+
+(* the value the property gives a plain attribute: true when absent, the cleaned string, the expression *)
+Definition plain_value (value : node) : option node :=
+  match value with
+  | NScalar JNull => Some (Bool true)
+  | Str v _ => Some (mk_str (jsx_clean v))
+  | JExprC e => Some e
+  | _ => None
+  end.
+
+Definition wf_attr_name (name : node) : Prop :=
+  match name with IdName _ | JNs (IdName _) (IdName _) => True | _ => False end.
+
+Definition is_ton (name : node) : bool :=
+  o_transform_on (e_opts E) && (sq "on" (attr_name_str name) || sq "nativeOn" (attr_name_str name)).
+
+Lemma plain_attr_value_spec value x :
+  plain_value value = Some x -> plain_attr_value value = Some x.
+Proof.
+  unfold plain_value, plain_attr_value. destruct value; try discriminate.
+  - match goal with |- context [match ?j with JNull => _ | _ => _ end] => destruct j end;
+      try discriminate. exact (fun H => H).
+  - intros H. rewrite transform_text_is_jsx_clean. exact H.
+  - exact (fun H => H).
+Qed.
+
+(* C01: a plain attribute adds exactly the prop the property describes: its written name (the
+   colon of a namespaced name kept), `true` without a value, the whitespace-normalised string,
+   or the expression; nothing else of the element changes *)
+Theorem plain_attr_refines ic tag all name value x a :
+  wf_attr_name name ->
+  spec_directive_name name = None ->
+  plain_value value = Some x -> user_value x = true ->
+  is_ton name = false ->
+  let a' := attr_step E ic a (JAttr name value) in
+  a_props a' = a_props a ++ [KV (mk_str (attr_name_str name)) x]
+  /\ fst (fst (attr_spec E ic tag all (JAttr name value))) = [CKV (attr_name_str name) [x]]
+  /\ view_prop (KV (mk_str (attr_name_str name)) x) = CKV (attr_name_str name) [x]
+  /\ snd (fst (attr_spec E ic tag all (JAttr name value))) = []
+  /\ a_dirs a' = a_dirs a /\ a_margs a' = a_margs a /\ a_slots a' = a_slots a.
+Proof.
+  intros WF HN PV UV TON. cbv zeta.
+  unfold attr_step. rewrite (directive_iff name value WF), HN.
+  unfold step_plain. fold (is_ton name). rewrite TON.
+  rewrite (plain_attr_value_spec _ _ PV).
+  cbn [a_props a_dirs a_margs a_slots].
+  split; [reflexivity|]. split.
+  - cbn [attr_spec]. rewrite HN.
+    assert (K : match name with
+                | IdName s0 => s0
+                | JNs (IdName ns) (IdName nm) => ns ++ [58] ++ nm
+                | _ => []
+                end = attr_name_str name).
+    { unfold attr_name_str. destruct name; try reflexivity;
+      repeat match goal with |- context [match ?n with _ => _ end] => is_var n; destruct n; try reflexivity end. }
+    rewrite K. unfold is_ton in TON.
+    unfold plain_value in PV. destruct value; try discriminate PV.
+    + match type of PV with context [match ?j with JNull => _ | _ => _ end] => destruct j end;
+        try discriminate PV. injection PV as <-. reflexivity.
+    + injection PV as <-. reflexivity.
+    + injection PV as <-. rewrite TON. reflexivity.
+  - split; [apply view_prop_user; exact UV|].
+    cbn [attr_spec]. rewrite HN.
+    unfold plain_value in PV. destruct value; try discriminate PV; repeat split.
+    + match type of PV with context [match ?j with JNull => _ | _ => _ end] => destruct j end; reflexivity.
+    + match goal with |- context [if ?c then _ else _] => destruct c end; reflexivity.
+Qed.
+
+(* C01: with transformOn an `on` / `nativeOn` object is handed to the listener conversion *)
+Theorem transform_on_refines ic tag all name e a :
+  wf_attr_name name ->
+  spec_directive_name name = None ->
+  is_ton name = true ->
+  let a' := attr_step E ic a (JAttr name (JExprC e)) in
+  exists flushed arg,
+    a_props a' = [] /\ a_margs a' = a_margs a ++ flushed ++ [arg]
+    /\ flushed = match a_props a with [] => [] | ps => [flush_obj E ps] end
+    /\ view_arg arg = fst (fst (attr_spec E ic tag all (JAttr name (JExprC e))))
+    /\ a_dirs a' = a_dirs a /\ a_slots a' = a_slots a.
+Proof.
+  intros WF HN TON. cbv zeta.
+  unfold attr_step. rewrite (directive_iff name (JExprC e) WF), HN.
+  unfold step_plain. fold (is_ton name). rewrite TON. cbn [plain_attr_value].
+  eexists. eexists. split; [|split; [|split; [reflexivity|]]].
+  - destruct (a_props a); reflexivity.
+  - destruct (a_props a); cbn [a_margs]; rewrite <- ?app_assoc; reflexivity.
+  - split; [|split; [destruct (a_props a); reflexivity|destruct (a_props a); reflexivity]].
+    cbn [attr_spec]. rewrite HN.
+    assert (K : match name with
+                | IdName s0 => s0
+                | JNs (IdName ns) (IdName nm) => ns ++ [58] ++ nm
+                | _ => []
+                end = attr_name_str name).
+    { unfold attr_name_str. destruct name; try reflexivity;
+      repeat match goal with |- context [match ?n with _ => _ end] => is_var n; destruct n; try reflexivity end. }
+    rewrite K. unfold is_ton in TON. rewrite TON.
+    unfold view_arg, mk_call. cbn [map].
+    unfold is_helper, mk_ident, ton_ctx. reflexivity.
+Qed.
+
+(* C01: a spread; without mergeProps its entries continue the props object (plain last-wins
+   object semantics), with mergeProps it becomes one argument of Vue's mergeProps, after the
+   props written before it *)
+Theorem spread_refines_plain ic tag all e a :
+  o_merge_props (e_opts E) = false ->
+  let a' := attr_step E ic a (Spread e) in
+  exists ps,
+    a_props a' = a_props a ++ ps /\ a_margs a' = a_margs a
+    /\ map view_prop ps = fst (fst (attr_spec E ic tag all (Spread e)))
+    /\ a_dirs a' = a_dirs a /\ a_slots a' = a_slots a.
+Proof.
+  intros MP. cbv zeta. cbn [attr_step]. unfold step_spread. rewrite MP.
+  destruct e; cbn [attr_spec fst];
+    (eexists; split; [destruct (a_props a); reflexivity|];
+     split; [destruct (a_props a); reflexivity|]; split; [reflexivity|];
+     split; destruct (a_props a); reflexivity).
+Qed.
+
+Theorem spread_refines_merge ic tag all e a :
+  o_merge_props (e_opts E) = true ->
+  user_value e = true ->
+  let a' := attr_step E ic a (Spread e) in
+  a_props a' = []
+  /\ a_margs a' = a_margs a ++ (match a_props a with [] => [] | ps => [Obj (dedupe_props ps)] end) ++ [e]
+  /\ view_arg e = fst (fst (attr_spec E ic tag all (Spread e)))
+  /\ a_dirs a' = a_dirs a /\ a_slots a' = a_slots a.
+Proof.
+  intros MP UV. cbv zeta. cbn [attr_step]. unfold step_spread. rewrite MP.
+  split; [destruct (a_props a); destruct e; reflexivity|].
+  split; [destruct (a_props a); destruct e; cbn [a_margs]; rewrite <- ?app_assoc; reflexivity|].
+  split; [|split; destruct (a_props a); destruct e; reflexivity].
+  unfold user_value in UV. apply andb_true_iff in UV. destruct UV as [_ UV].
+  destruct e; try reflexivity.
+  match type of UV with context [match ?b with true => _ | false => _ end] => destruct b end;
+    [discriminate UV|reflexivity].
+Qed.
+
+(* ---- C05: v-model -------------------------------------------------------------------------- *)
+Definition norm_arg (a : option node) : option node := match a with Some Null => None | x => x end.
+
+Lemma vmodel_parts_spec ic nm na sp value s :
+  let parts := spec_directive_parts {| dn_name := nm; dn_arg := na; dn_mods := sp |} value in
+  exists arg mo,
+    vmodel_parts (fst (vmodel_attr_value value s)) ic (name_arg na) sp
+    = (dflt_value (dp_value parts), arg, mo)
+    /\ norm_arg arg = norm_arg (dp_arg parts)
+    /\ (ic = false -> arg = dp_arg parts)
+    /\ mods_list mo = sort_dedup (dp_mods parts).
+Proof.
+  cbv zeta. unfold vmodel_attr_value.
+  destruct value;
+    try (eexists; eexists; split; [reflexivity|]; split; [destruct na; reflexivity|];
+         split; [destruct na; reflexivity|reflexivity]).
+  match goal with |- context [match ?e with JEmpty => _ | _ => _ end] => destruct e end;
+    try (eexists; eexists; split; [reflexivity|]; split; [destruct na; reflexivity|];
+         split; [destruct na; reflexivity|reflexivity]).
+  (* the array form *)
+  cbn [fst vmodel_parts].
+  match goal with |- context [array_form _ _ _ ?es] =>
+    destruct (array_form_spec ic nm na sp es) as [mo [H1 H2]] end.
+  rewrite H1. eexists. exists mo. split; [reflexivity|]. split; [|split; [|exact H2]].
+  - destruct ic; [|reflexivity].
+    match goal with |- context [dp_arg ?p] => destruct (dp_arg p) as [x|] end; reflexivity.
+  - intros ->. reflexivity.
+Qed.
+
+Lemma is_listener_listener t : is_listener (listener t) = Some t.
+Proof. reflexivity. Qed.
+
+Lemma view_prop_listener k w t : view_prop (KV (Str k w) (listener t)) = CKV k [mk_listener t].
+Proof. reflexivity. Qed.
+
+Definition static_arg (a : option node) : Prop :=
+  match a with None | Some Null | Some (Str _ _) => True | _ => False end.
+
+Definition mods_obj (ms : list str) : node := Obj (map (fun m => KV (mk_str m) (Bool true)) ms).
+
+Lemma view_prop_mods k w ms : view_prop (KV (Str k w) (mods_obj ms)) = CKV k [mods_obj ms].
+Proof. reflexivity. Qed.
+
+Lemma transform_modifiers_quoted ms :
+  transform_modifiers ms true = match ms with [] => None | _ => Some (mods_obj ms) end.
+Proof. destruct ms; reflexivity. Qed.
+
+(* C05, component host: the value goes to `modelValue` (or the named prop), the modifiers to
+   `modelModifiers` / `<arg>Modifiers`, and `onUpdate:<name>` assigns the target *)
+Theorem vmodel_component_refines tag all name value d a :
+  spec_directive_name name = Some d ->
+  sq "html" (dn_name d) = false -> sq "text" (dn_name d) = false -> sq "model" (dn_name d) = true ->
+  static_arg (dp_arg (spec_directive_parts d value)) ->
+  user_value (dflt_value (dp_value (spec_directive_parts d value))) = true ->
+  let a' := step_directive true a name value in
+  exists ps,
+    a_props a' = a_props a ++ ps
+    /\ map view_prop ps = fst (fst (attr_spec E true tag all (JAttr name value)))
+    /\ a_dirs a' = a_dirs a /\ a_margs a' = a_margs a /\ a_slots a' = a_slots a.
+Proof.
+  intros HN Hh Ht Hm SA UV. cbv zeta.
+  unfold step_directive. rewrite parse_directive_unfold. rewrite (name_parts_spec _ _ HN).
+  rewrite Hh, Ht, Hm. unfold parse_v_model.
+  destruct d as [dn na sp]. cbn [dn_name dn_arg dn_mods] in *.
+  destruct (vmodel_attr_value value (a_st a)) as [av s1] eqn:EV.
+  destruct (vmodel_parts_spec true dn na sp value (a_st a)) as [arg [mo [HP [HA [_ HM]]]]].
+  rewrite EV in HP. cbn [fst] in HP. fold (name_arg na). rewrite HP.
+  cbn [attr_spec]. rewrite HN. cbn [dn_name]. rewrite Hh, Ht, Hm.
+  assert (Hs : sq "slots" dn = false).
+  { apply str_eqb_eq in Hm. subst dn. reflexivity. }
+  rewrite Hs.
+  set (parts := spec_directive_parts {| dn_name := dn; dn_arg := na; dn_mods := sp |} value) in *.
+  set (target := dflt_value (dp_value parts)) in *.
+  assert (TG : match dp_value parts with Some t => t | None => empty_ident end = target) by reflexivity.
+  rewrite TG. rewrite <- HM.
+  assert (MO : match mo with Some m => transform_modifiers m true | None => None end
+               = match mods_list mo with [] => None | ms => Some (mods_obj ms) end).
+  { destruct mo as [[|m0 r0]|]; reflexivity. }
+  rewrite MO. clear MO.
+  unfold step_vmodel. cbn [a_props a_dyn a_dirs a_margs a_slots andb negb].
+  (* the argument forms *)
+  destruct (dp_arg parts) as [pa|] eqn:EPA.
+  - destruct pa; try contradiction SA.
+    + (* Str *)
+      cbn [norm_arg] in HA. destruct arg as [x|]; [|discriminate HA].
+      destruct x; try discriminate HA. injection HA as -> ->.
+      destruct (mods_list mo) as [|m0 r0];
+        (eexists; split; [cbn [a_props]; rewrite <- ?app_assoc; reflexivity|]);
+        cbn [map app a_dirs a_margs a_slots];
+        unfold mk_str; rewrite ?view_prop_listener, ?view_prop_mods, (view_prop_user _ _ _ UV);
+        repeat split.
+    + (* Null *)
+      cbn [norm_arg] in HA.
+      assert (AA : arg = None \/ arg = Some Null).
+      { destruct arg as [x|]; [right|left; reflexivity]. destruct x; try discriminate HA. reflexivity. }
+      destruct AA as [-> | ->];
+        (destruct (mods_list mo) as [|m0 r0];
+         (eexists; split; [cbn [a_props]; rewrite <- ?app_assoc; reflexivity|]);
+         cbn [map app a_dirs a_margs a_slots];
+         unfold mk_strS, mk_str; rewrite ?view_prop_listener, ?view_prop_mods, (view_prop_user _ _ _ UV);
+         repeat split).
+  - cbn [norm_arg] in HA.
+    assert (AA : arg = None \/ arg = Some Null).
+    { destruct arg as [x|]; [right|left; reflexivity]. destruct x; try discriminate HA. reflexivity. }
+    destruct AA as [-> | ->];
+      (destruct (mods_list mo) as [|m0 r0];
+       (eexists; split; [cbn [a_props]; rewrite <- ?app_assoc; reflexivity|]);
+       cbn [map app a_dirs a_margs a_slots];
+       unfold mk_strS, mk_str; rewrite ?view_prop_listener, ?view_prop_mods, (view_prop_user _ _ _ UV);
+       repeat split).
+Qed.
+
+(* the model directive is chosen by the host: select, textarea, input by static type, dynamic type *)
+Lemma find_type_attr attrs :
+  (fix find (l : list node) : option node :=
+     match l with
+     | JAttr (IdName k) v :: r => if sq "type" k && negb (is_nnull v) then Some v else find r
+     | _ :: r => find r
+     | [] => None
+     end) attrs = static_type_attr attrs.
+Proof.
+  unfold static_type_attr. induction attrs as [|x r IH]; [reflexivity|].
+  cbn [fold_right]. rewrite <- IH.
+  destruct x; reflexivity.
+Qed.
+
+Definition by_type (o : option node) : String.string :=
+  match o with
+  | Some (Str v _) => if sq "checkbox" v then "vModelCheckbox"%string
+                      else if sq "radio" v then "vModelRadio"%string else "vModelText"%string
+  | None => "vModelText"%string
+  | Some _ => "vModelDynamic"%string
+  end.
+
+Lemma by_type_import (o : option node) s :
+  norm_def (fst (match o with
+                 | Some (Str v _) =>
+                     if sq "checkbox" v then import_from_vue "vModelCheckbox" s
+                     else if sq "radio" v then import_from_vue "vModelRadio" s
+                     else import_from_vue "vModelText" s
+                 | None => import_from_vue "vModelText" s
+                 | Some _ => import_from_vue "vModelDynamic" s
+                 end))
+  = mk_ident (s_ (String.append "_" (by_type o))) 0.
+Proof.
+  destruct o as [tv|]; [|reflexivity]. destruct tv; try reflexivity.
+  unfold by_type. repeat match goal with |- context [if ?c then _ else _] => destruct c end; reflexivity.
+Qed.
+
+Lemma resolve_model tag attrs s :
+  norm_def (fst (resolve_directive (s_ "model") tag attrs s))
+  = mk_ident (s_ (String.append "_" (spec_model_directive tag attrs))) 0.
+Proof.
+  unfold resolve_directive.
+  change (sq "show" (s_ "model")) with false. change (sq "model" (s_ "model")) with true. cbv iota.
+  unfold spec_model_directive. rewrite !find_type_attr.
+  fold (by_type (static_type_attr attrs)).
+  destruct tag; try apply by_type_import.
+  repeat match goal with |- context [if ?c then _ else _] => destruct c; try reflexivity end.
+  apply by_type_import.
+Qed.
+
+(* C05, form element (or any non-component host): the host's model directive with the bound
+   value, argument and modifiers, plus the `onUpdate:<name>` listener assigning the target *)
+Theorem vmodel_element_refines tag attrs name value d a :
+  spec_directive_name name = Some d ->
+  sq "html" (dn_name d) = false -> sq "text" (dn_name d) = false -> sq "model" (dn_name d) = true ->
+  static_arg (dp_arg (spec_directive_parts d value)) ->
+  arg_not_void (dp_arg (spec_directive_parts d value)) ->
+  let a' := step_directive false a name value in
+  exists p dir,
+    a_props a' = a_props a ++ [p] /\ a_dirs a' = a_dirs a ++ [dir]
+    /\ map view_prop [p] = fst (fst (attr_spec E false tag attrs (JAttr name value)))
+    /\ (forall s1, map view_dir (fst (build_directives [dir] tag attrs s1))
+                   = map Some (snd (fst (attr_spec E false tag attrs (JAttr name value)))))
+    /\ a_margs a' = a_margs a /\ a_slots a' = a_slots a.
+Proof.
+  intros HN Hh Ht Hm SA NV. cbv zeta.
+  unfold step_directive. rewrite parse_directive_unfold. rewrite (name_parts_spec _ _ HN).
+  rewrite Hh, Ht, Hm. unfold parse_v_model.
+  destruct d as [dn na sp]. cbn [dn_name dn_arg dn_mods] in *.
+  destruct (vmodel_attr_value value (a_st a)) as [av s1] eqn:EV.
+  destruct (vmodel_parts_spec false dn na sp value (a_st a)) as [arg [mo [HP [_ [HA HM]]]]].
+  specialize (HA eq_refl). subst arg.
+  rewrite EV in HP. cbn [fst] in HP. fold (name_arg na). rewrite HP.
+  cbn [attr_spec]. rewrite HN. cbn [dn_name]. rewrite Hh, Ht, Hm.
+  assert (Hs : sq "slots" dn = false).
+  { apply str_eqb_eq in Hm. subst dn. reflexivity. }
+  rewrite Hs.
+  set (parts := spec_directive_parts {| dn_name := dn; dn_arg := na; dn_mods := sp |} value) in *.
+  set (target := dflt_value (dp_value parts)) in *.
+  assert (TG : match dp_value parts with Some t => t | None => empty_ident end = target) by reflexivity.
+  rewrite TG. rewrite <- HM.
+  unfold step_vmodel. cbn [a_props a_dyn a_dirs a_margs a_slots andb negb].
+  assert (DIR : forall dir_arg dir_mods s2,
+             dir_arg = (if nonempty_mods mo then or_void0 (dp_arg parts) else dp_arg parts) ->
+             dir_mods = match mo with Some m => transform_modifiers m false | None => None end ->
+             map view_dir (fst (build_directives [DNormal (s_ "model") dir_arg dir_mods target] tag attrs s2))
+             = [Some (ADir (mk_ident (s_ (String.append "_" (spec_model_directive tag attrs))) 0)
+                           target (dp_arg parts) (mods_list mo))]).
+  { intros dir_arg dir_mods s2 -> ->. cbn [build_directives fst snd map].
+    destruct (resolve_directive (s_ "model") tag attrs s2) as [def s3] eqn:ER.
+    cbn [fst map]. rewrite (view_dir_built def target (dp_arg parts) mo NV).
+    replace def with (fst (resolve_directive (s_ "model") tag attrs s2)) by (rewrite ER; reflexivity).
+    rewrite resolve_model. reflexivity. }
+  destruct (dp_arg parts) as [pa|]; [destruct pa; try contradiction SA|];
+    (eexists; eexists; split; [reflexivity|]; split; [reflexivity|]; split; [reflexivity|];
+     split; [intros s2; apply DIR; reflexivity|split; reflexivity]).
+Qed.
+
+(* C05, known finding (pinned by a fixture): the listener key of a computed argument is
+   `"onUpdate" + arg`, without the colon the property asks for.  Witness `<C v-model={[m, dyn]} />` *)
+Definition w_name : node := IdName (s_ "v-model").
+Definition w_value : node :=
+  JExprC (Arr [Elem false (Ident (s_ "m") 2 false); Elem false (Ident (s_ "dyn") 2 false)]).
+Definition w_acc (s : st) : acc := mkAcc [] [] [] [] None false false false false false s.
+
+Theorem vmodel_computed_arg_refuted tag all s :
+  let ps := a_props (step_directive true (w_acc s) w_name w_value) in
+  map view_prop ps <> fst (fst (attr_spec E true tag all (JAttr w_name w_value)))
+  /\ map view_prop ps = map pinned_listener_key (fst (fst (attr_spec E true tag all (JAttr w_name w_value)))).
+Proof. cbv zeta. split; [intros H; vm_compute in H; discriminate H|vm_compute; reflexivity]. Qed.
+
+(* ---- C05: v-models is the same-order sequence of v-model attributes ---------------------- *)
+Lemma decouple_v_models_spec rows : decouple_v_models rows = expand_vmodels rows.
+Proof.
+  induction rows as [|r rest IH]; [reflexivity|].
+  cbn [decouple_v_models expand_vmodels].
+  destruct r; try exact IH.
+  match goal with |- context [match ?b with true => _ | false => _ end] => destruct b end; try exact IH.
+  match goal with |- context [match ?n with Arr _ => _ | _ => _ end] => destruct n end; try exact IH.
+  rewrite IH. unfold decouple_one, nth_plain.
+  match goal with |- context [nth_error ?l 1] => destruct (nth_error l 1) as [x|] end; [|reflexivity].
+  destruct x; try reflexivity.
+  match goal with |- context [match ?b with true => _ | false => _ end] => destruct b end; try reflexivity.
+  match goal with |- context [match ?n with Str _ _ => _ | _ => _ end] => destruct n end; reflexivity.
+Qed.
+
+Lemma splice_found attrs : splice_vmodels attrs true = attrs.
+Proof.
+  induction attrs as [|x r IH]; [reflexivity|]. cbn [splice_vmodels].
+  destruct x; try (rewrite IH; reflexivity).
+  match goal with |- context [match ?n with IdName _ => _ | _ => _ end] => destruct n end;
+    cbn [negb andb]; rewrite IH; reflexivity.
+Qed.
+
+(* C05: the attribute list the element is lowered from is the written one with the `v-models`
+   attribute replaced, in place, by the v-model attributes it lists, in order *)
+Lemma decouple_attrs_spec attrs s : fst (decouple_attrs attrs s) = splice_vmodels attrs false.
+Proof.
+  unfold decouple_attrs.
+  assert (G : forall l,
+             match split_at_vmodels l with
+             | Some (pre, v, post) =>
+                 splice_vmodels l false
+                 = pre ++ (match v with JExprC (Arr rows) => expand_vmodels rows | _ => [] end) ++ post
+             | None => splice_vmodels l false = l
+             end).
+  { induction l as [|x r IH]; [reflexivity|].
+    cbn [split_at_vmodels splice_vmodels].
+    destruct x;
+      try (destruct (split_at_vmodels r) as [[[pre0 v0] post0]|]; cbn [app]; rewrite IH; reflexivity).
+    match goal with |- context [match ?n with IdName _ => _ | _ => _ end] => destruct n end;
+      try (destruct (split_at_vmodels r) as [[[pre0 v0] post0]|]; cbn [app]; rewrite IH; reflexivity).
+    cbn [negb andb].
+    match goal with |- context [sq "v-models" ?k] => destruct (sq "v-models" k) end.
+    - cbn [app]. rewrite splice_found.
+      match goal with |- context [match ?v with JExprC _ => _ | _ => _ end] => destruct v end; try reflexivity.
+      match goal with |- context [match ?e with Arr _ => _ | _ => _ end] => destruct e end; reflexivity.
+    - destruct (split_at_vmodels r) as [[[pre0 v0] post0]|]; cbn [app]; rewrite IH; reflexivity. }
+  specialize (G attrs).
+  destruct (split_at_vmodels attrs) as [[[pre0 v0] post0]|]; [|symmetry; exact G].
+  rewrite G.
+  destruct v0; try reflexivity.
+  match goal with |- context [match ?e with JEmpty => _ | _ => _ end] => destruct e end; try reflexivity.
+  cbn [fst]. rewrite decouple_v_models_spec. reflexivity.
 Qed.
 
 End Site.
